@@ -363,7 +363,8 @@ class Bin(Factory, Container):
         """
         if self.under(x) or self.over(x) or self.nan(x):
             return -1
-        return int(math.floor(self.num * (x - self.low) / (self.high - self.low)))
+        # x < high, but the floating-point quotient can still round up to num: such x belong to the last bin
+        return min(self.num - 1, int(math.floor(self.num * (x - self.low) / (self.high - self.low))))
 
     def under(self, x):
         """Return ``true`` iff ``x`` is in the underflow region (less than ``low``)."""
